@@ -724,8 +724,14 @@ def _gen_triple(rng):
 
 def _gen_rank(rng):
     n = int(rng.integers(1, 5)) if rng.random() < 0.2 else int(rng.integers(1, 41))
-    cls = pick(rng, ['float', 'ties', 'ties', 'equal', 'sorted', 'reversed', 'distance'])
-    if cls == 'float':
+    cls = pick(rng, ['float', 'ties', 'ties', 'equal', 'sorted', 'reversed', 'distance', 'near-equal', 'tiny'])
+    if cls == 'near-equal':
+        # distinct values a few ulps .. 1e-13 relative apart (scores that differ "only by noise" are still ordered)
+        base = float(10.0 ** rng.uniform(-3, 3))
+        v = base * (1.0 + rng.permutation(n) * float(pick(rng, [2.3e-16, 1e-15, 1e-13, 1e-11])))
+    elif cls == 'tiny':
+        v = np.abs(rng.normal(0, 1, n)) * 10.0 ** -int(rng.integers(12, 300))
+    elif cls == 'float':
         v = rng.normal(0, 1, n) * 10.0 ** int(rng.integers(-3, 6))
     elif cls == 'ties':
         v = rng.integers(0, max(2, n // 2), n).astype(float)
